@@ -2,7 +2,7 @@
 # usage: tools/allchecks.sh [tier] [seed]  -- every registered check on /repo, one summary line each (maintenance helper)
 tier=${1:-quick}
 export VERIF_SEED=${2:-1}
-cd /verif
+cd "$(cd "$(dirname "$0")/.." && pwd)"
 for c in C01 C02 C03 C04 C05 C06 C07 C08 C09 C10 C11 C12 C13 C14 C15 C16 C17 C18 C19; do
   out=$(timeout ${ALL_TIMEOUT:-3600} ./check $c --tier $tier 2>&1); rc=$?
   echo "$c rc=$rc $(echo "$out" | grep -c '^KNOWN-FINDING') known; $(echo "$out" | tail -1)"
